@@ -490,3 +490,590 @@ theorem coShapeRefLoop_spec (mk : π) : ∀ (cs : List Int) (fs : List (Fib Int 
 
 end co
 end Ft.C07
+
+namespace Ft.C07
+open Ft StrictTotal
+
+/-! ### default iteration, and the coherence of shape and occupancy iteration -/
+section dispatch
+variable {π : Type}
+
+theorem stored_keys (l : Fib Int (Nat × π)) : (stored l).map (·.1) = l.map (·.1) := by
+  simp [stored, List.map_map, Function.comp_def]
+
+theorem stored_filter (P : Int → π → Bool) (l : Fib Int (Nat × π)) :
+    (stored l).filter (fun x => P x.1 x.2.2) = stored (l.filter (fun x => P x.1 x.2.2)) := by
+  unfold stored
+  rw [List.filter_map]
+  rfl
+
+theorem sorted_filter {ρ : Type} {l : Fib Int ρ} (h : Sorted l) (P : Int × ρ → Bool) : Sorted (l.filter P) :=
+  List.Pairwise.sublist List.filter_sublist h
+
+theorem shapeSpec_sorted (mk : π) (f : Fib Int π) {cs : List Int} (h : cs.Pairwise (· < ·)) :
+    Sorted (shapeSpec mk f cs) := by
+  unfold shapeSpec Sorted
+  rw [List.pairwise_map]
+  exact h
+
+theorem iterDefault_C (emp : π → Bool) (mk : π) (cfg : Cfg) (hf : cfg.fmt = .C) (f : Fib Int π) :
+    iterDefault emp mk cfg none f = iterDefaultSpec emp mk cfg f := by
+  unfold iterDefault iterDefaultSpec iterRange
+  rw [hf]
+  simp only [Option.getD_none, List.drop_zero]
+  rw [rangeLoop_none]
+
+theorem iterDefault_C_sp (emp : π → Bool) (mk : π) (cfg : Cfg) (hf : cfg.fmt = .C) {f : Fib Int π} (hs : Sorted f)
+    (sp : Nat) (hv : validStart emp none none sp f = true) :
+    iterDefault emp mk cfg (some sp) f = iterDefaultSpec emp mk cfg f := by
+  rw [← iterDefault_C emp mk cfg hf f]
+  unfold iterDefault
+  rw [hf]
+  simp only
+  rw [iterRange_startpos_eq emp none none sp f hs hv]
+
+theorem iterDefault_U (emp : π → Bool) (mk : π) (cfg : Cfg) (hf : cfg.fmt = .U) {f : Fib Int π} (hs : Sorted f)
+    (sp : Option Nat) : iterDefault emp mk cfg sp f = iterDefaultSpec emp mk cfg f := by
+  unfold iterDefault iterDefaultSpec
+  rw [hf]
+  exact shapeIter_eq_spec mk hs _
+
+/-- the non-empty part of a dense traversal of `[a, b)` is the occupancy traversal clipped to
+    `[a, b)` — same elements, same positions -/
+theorem shape_nonempty_eq_range (emp : π → Bool) (mk : π) (hmk : emp mk = true) {f : Fib Int π} (hs : Sorted f)
+    (a b : Int) :
+    (shapeSpec mk f (pyRange a b 1)).filter (fun x => !emp x.2.2) =
+      stored ((withPos f).filter (fun x => !emp x.2.2 && decide (a ≤ x.1) && decide (x.1 < b))) := by
+  have hw := withPos_sorted hs
+  apply sorted_ext_of_fn (F := fun c => lookupPos mk f c)
+  · exact sorted_filter (shapeSpec_sorted mk f (pyRange_ascending a b 1)) _
+  · exact (sorted_iff_keys (stored_keys _)).2 (sorted_filter hw _)
+  · intro r hr
+    obtain ⟨c, _, rfl⟩ := List.mem_map.1 (List.mem_filter.1 hr).1
+    rfl
+  · intro r hr
+    obtain ⟨x, hx, rfl⟩ := List.mem_map.1 hr
+    have hx' := (List.mem_filter.1 hx).1
+    show (some x.2.1, x.2.2) = lookupPos mk f x.1
+    unfold lookupPos
+    rw [lookup_of_sorted_mem hw hx']
+  · intro c
+    constructor
+    · rintro ⟨r, hr, rfl⟩
+      obtain ⟨hr1, hr2⟩ := List.mem_filter.1 hr
+      obtain ⟨c, hc, rfl⟩ := List.mem_map.1 hr1
+      have hc' := (mem_pyRange_one a b c).1 hc
+      simp only at hr2 ⊢
+      cases hl : lookup (withPos f) c with
+      | none =>
+        have : (lookupPos mk f c).2 = mk := by unfold lookupPos; rw [hl]
+        rw [this, hmk] at hr2; cases hr2
+      | some ip =>
+        have h2 : (lookupPos mk f c).2 = ip.2 := by unfold lookupPos; rw [hl]
+        rw [h2] at hr2
+        refine ⟨(c, (some ip.1, ip.2)), ?_, rfl⟩
+        apply List.mem_map.2
+        refine ⟨(c, ip), ?_, rfl⟩
+        apply List.mem_filter.2
+        refine ⟨lookup_mem hl, ?_⟩
+        simp [hr2, hc'.1, hc'.2]
+    · rintro ⟨r, hr, rfl⟩
+      obtain ⟨x, hx, rfl⟩ := List.mem_map.1 hr
+      obtain ⟨hx1, hx2⟩ := List.mem_filter.1 hx
+      simp only [Bool.and_eq_true, decide_eq_true_eq] at hx2
+      refine ⟨(x.1, lookupPos mk f x.1), ?_, rfl⟩
+      apply List.mem_filter.2
+      refine ⟨List.mem_map.2 ⟨x.1, (mem_pyRange_one a b x.1).2 ⟨hx2.1.2, hx2.2⟩, rfl⟩, ?_⟩
+      have : (lookupPos mk f x.1).2 = x.2.2 := by
+        unfold lookupPos; rw [lookup_of_sorted_mem hw hx1]
+      simp only [this]
+      exact hx2.1.1
+
+end dispatch
+end Ft.C07
+
+namespace Ft.C07
+open Ft StrictTotal
+
+/-! ### `project` -/
+section proj
+variable {π ρ : Type}
+
+theorem ivLoop_eq (iv : Option (Int × Int)) {l : Fib Int ρ} (hs : Sorted l) :
+    ivLoop iv l = l.filter (fun x => inIv iv x.1) := by
+  cases iv with
+  | none => simp [ivLoop, inIv, List.filter_eq_self.2]
+  | some p =>
+    obtain ⟨lo, hi⟩ := p
+    unfold ivLoop
+    simp only
+    rw [rangeLoop_eq_filter _ _ _ l hs]
+    unfold rangeSpec
+    apply filter_congr'
+    intro x _
+    simp only [inSlice, inIv, geStart, geEnd, Bool.not_false, Bool.true_and, Bool.not_not]
+    congr 1
+    by_cases h : x.1 < lo
+    · have : ¬ lo ≤ x.1 := by omega
+      simp [h, this]
+    · have : lo ≤ x.1 := by omega
+      simp [h, this]
+
+theorem lazyIter_eq (emp : ρ → Bool) (os oe : Option Int) {l : Fib Int ρ} (hs : Sorted l) :
+    lazyIter emp os oe l = l.filter (inSlice emp os oe) :=
+  rangeLoop_eq_filter emp os oe l hs
+
+/-- the normal form of the whole pipeline: transform, then keep what lies in the interval, is
+    non-empty and lies in the range the result is iterated with -/
+def nf (emp : π → Bool) (k m : Int) (iv : Option (Int × Int)) (os oe : Option Int)
+    (src : Fib Int (Option Nat × π)) : Fib Int (Option Nat × π) :=
+  (transF k m src).filter (fun x => inIv iv x.1 && inSlice (fun y : Option Nat × π => emp y.2) os oe x)
+
+theorem pipeline_eq_nf (emp : π → Bool) (k m : Int) (iv : Option (Int × Int)) (os oe : Option Int)
+    {src : Fib Int (Option Nat × π)} (hs : Sorted (transF k m src)) :
+    lazyIter (fun y : Option Nat × π => emp y.2) os oe (ivLoop iv (transF k m src)) = nf emp k m iv os oe src := by
+  rw [ivLoop_eq iv hs, lazyIter_eq _ os oe (sorted_filter hs _), List.filter_filter]
+  unfold nf
+  apply filter_congr'
+  intro x _
+  rw [Bool.and_comm]
+
+theorem nf_append (emp : π → Bool) (k m : Int) (iv : Option (Int × Int)) (os oe : Option Int)
+    (a b : Fib Int (Option Nat × π)) :
+    nf emp k m iv os oe (a ++ b) = nf emp k m iv os oe a ++ nf emp k m iv os oe b := by
+  simp [nf, transF, List.filter_append]
+
+theorem nf_reverse (emp : π → Bool) (k m : Int) (iv : Option (Int × Int)) (os oe : Option Int)
+    (a : Fib Int (Option Nat × π)) :
+    nf emp k m iv os oe a.reverse = (nf emp k m iv os oe a).reverse := by
+  simp [nf, transF, List.filter_reverse, List.map_reverse]
+
+theorem transF_sorted_pos {k : Int} (hk : 0 < k) (m : Int) {l : Fib Int ρ} (hs : Sorted l) :
+    Sorted (transF k m l) := by
+  unfold transF Sorted
+  rw [List.pairwise_map]
+  apply List.Pairwise.imp _ hs
+  intro a b hab
+  have := Int.mul_lt_mul_of_pos_left hab hk
+  show k * a.1 + m < k * b.1 + m
+  omega
+
+theorem transF_sorted_neg {k : Int} (hk : k < 0) (m : Int) {l : Fib Int ρ} (hs : Sorted l) :
+    Sorted (transF k m l.reverse) := by
+  unfold transF Sorted
+  rw [List.pairwise_map, List.pairwise_reverse]
+  apply List.Pairwise.imp _ hs
+  intro a b hab
+  have := Int.mul_lt_mul_of_neg_left hab hk
+  show k * b.1 + m < k * a.1 + m
+  omega
+
+/-- the stored non-empty elements with their positions -/
+def occ (emp : π → Bool) (f : Fib Int π) : Fib Int (Option Nat × π) :=
+  stored ((withPos f).filter (fun x => !emp x.2.2))
+
+theorem occ_sorted (emp : π → Bool) {f : Fib Int π} (hs : Sorted f) : Sorted (occ emp f) :=
+  (sorted_iff_keys (stored_keys _)).2 (sorted_filter (withPos_sorted hs) _)
+
+theorem occ_nonempty (emp : π → Bool) (f : Fib Int π) : ∀ x ∈ occ emp f, emp x.2.2 = false := by
+  intro x hx
+  obtain ⟨y, hy, rfl⟩ := List.mem_map.1 hx
+  have := (List.mem_filter.1 hy).2
+  simpa using this
+
+/-- the specification in normal form -/
+theorem projectSpec_eq_nf (emp : π → Bool) (k m : Int) (iv : Option (Int × Int)) (os oe : Option Int) (f : Fib Int π) :
+    projectSpec emp k m iv os oe f =
+      if k < 0 then (nf emp k m iv os oe (occ emp f)).reverse else nf emp k m iv os oe (occ emp f) := by
+  have key : (transF k m (occ emp f)).filter (fun x => inIv iv x.1 && geStart os x.1 && !geEnd oe x.1) =
+      nf emp k m iv os oe (occ emp f) := by
+    unfold nf
+    apply filter_congr'
+    intro x hx
+    obtain ⟨y, hy, rfl⟩ := List.mem_map.1 hx
+    have := occ_nonempty emp f y hy
+    simp only [inSlice, this, Bool.not_false, Bool.true_and, Bool.and_assoc]
+  unfold projectSpec
+  simp only
+  show (if k < 0 then ((transF k m (occ emp f)).filter _).reverse else (transF k m (occ emp f)).filter _) = _
+  rw [key]
+
+end proj
+end Ft.C07
+
+namespace Ft.C07
+open Ft StrictTotal
+
+section projcases
+variable {π : Type}
+
+theorem mem_withPos_strip {f : Fib Int π} {x : Int × (Nat × π)} (hx : x ∈ withPos f) : (x.1, x.2.2) ∈ f := by
+  have : (x.1, x.2.2) ∈ strip (withPos f) := List.mem_map.2 ⟨x, hx, rfl⟩
+  rwa [strip_withPos] at this
+
+theorem mem_take_withPos_strip {f : Fib Int π} {n : Nat} {x : Int × (Nat × π)} (hx : x ∈ (withPos f).take n) :
+    (x.1, x.2.2) ∈ f.take n := by
+  have : (x.1, x.2.2) ∈ strip ((withPos f).take n) := List.mem_map.2 ⟨x, hx, rfl⟩
+  rwa [strip_take, strip_withPos] at this
+
+theorem occ_congr {emp emp' : π → Bool} {f : Fib Int π} (h : ∀ x ∈ f, emp' x.2 = emp x.2) :
+    occ emp' f = occ emp f := by
+  unfold occ
+  congr 1
+  apply filter_congr'
+  intro x hx
+  have := h _ (mem_withPos_strip hx)
+  simp only at this
+  rw [this]
+
+theorem revInner_eq (wemp : π → Bool) (f : Fib Int π) : revInner wemp f = (occ wemp f).reverse := by
+  unfold revInner occ stored
+  rw [rangeLoop_none, List.filter_reverse, List.map_reverse]
+
+theorem nf_filter_nonempty (emp : π → Bool) (k m : Int) (iv : Option (Int × Int)) (os oe : Option Int)
+    (src : Fib Int (Option Nat × π)) :
+    nf emp k m iv os oe (src.filter (fun x => !emp x.2.2)) = nf emp k m iv os oe src := by
+  unfold nf transF
+  rw [List.filter_map, List.filter_map, List.filter_filter]
+  congr 1
+  apply filter_congr'
+  intro x _
+  simp only [Function.comp, inSlice]
+  cases emp x.2.2 <;> simp
+
+/-- the first test of `project`: there is an example coordinate to look at -/
+def noStop (emp : π → Bool) (f : Fib Int π) : Bool :=
+  !(!f.isEmpty && (f.filter (fun x => !emp x.2)).isEmpty)
+
+theorem project_unfold_rev (emp wemp : π → Bool) (mk : π) (cfg : Cfg) {k : Int} (hk : k < 0) (m : Int)
+    (iv : Option (Int × Int)) (os oe : Option Int) {f : Fib Int π} (hn : noStop emp f = true) :
+    project emp wemp mk cfg k m iv none os oe f =
+      .ok (lazyIter (fun x : Option Nat × π => emp x.2) os oe (ivLoop iv (transF k m (revInner wemp f)))) := by
+  unfold project projectRaw
+  have h1 : (!f.isEmpty && (f.filter (fun x => !emp x.2)).isEmpty) = false := by
+    cases hX : (!f.isEmpty && (f.filter (fun x => !emp x.2)).isEmpty) with
+    | false => rfl
+    | true => unfold noStop at hn; rw [hX] at hn; cases hn
+  have h2 : decide (k * 0 + m > k * 1 + m) = true := by
+    simp only [decide_eq_true_eq]; omega
+  rw [h1]
+  simp only [Bool.false_eq_true, if_false, h2, if_true, Option.isSome_none]
+  rfl
+
+theorem project_unfold_fwd (emp wemp : π → Bool) (mk : π) (cfg : Cfg) {k : Int} (hk : 0 < k) (m : Int)
+    (iv : Option (Int × Int)) (sp : Option Nat) (os oe : Option Int) {f : Fib Int π} (hn : noStop emp f = true)
+    (hok : projStartOk iv sp f = true) :
+    project emp wemp mk cfg k m iv sp os oe f =
+      .ok (lazyIter (fun x : Option Nat × π => emp x.2) os oe (ivLoop iv (transF k m (iterDefault emp mk cfg sp f)))) := by
+  unfold project projectRaw
+  have h1 : (!f.isEmpty && (f.filter (fun x => !emp x.2)).isEmpty) = false := by
+    cases hX : (!f.isEmpty && (f.filter (fun x => !emp x.2)).isEmpty) with
+    | false => rfl
+    | true => unfold noStop at hn; rw [hX] at hn; cases hn
+  have h2 : decide (k * 0 + m > k * 1 + m) = false := by
+    simp only [decide_eq_false_iff_not]; omega
+  rw [h1]
+  simp only [Bool.false_eq_true, if_false, h2, hok, Bool.not_true]
+  rfl
+
+/-- order-reversing transform -/
+theorem project_rev (emp wemp : π → Bool) (mk : π) (cfg : Cfg) {k : Int} (hk : k < 0) (m : Int)
+    (iv : Option (Int × Int)) (os oe : Option Int) {f : Fib Int π} (hs : Sorted f) (hn : noStop emp f = true)
+    (hw : ∀ x ∈ f, wemp x.2 = emp x.2) :
+    project emp wemp mk cfg k m iv none os oe f = .ok (projectSpec emp k m iv os oe f) := by
+  rw [project_unfold_rev emp wemp mk cfg hk m iv os oe hn, revInner_eq, occ_congr hw,
+    pipeline_eq_nf emp k m iv os oe (transF_sorted_neg hk m (occ_sorted emp hs)), nf_reverse,
+    projectSpec_eq_nf, if_pos hk]
+
+theorem iterDefaultSpec_C (emp : π → Bool) (mk : π) (cfg : Cfg) (hf : cfg.fmt = .C) (f : Fib Int π) :
+    iterDefaultSpec emp mk cfg f = occ emp f := by
+  unfold iterDefaultSpec occ; rw [hf]
+
+/-- order-preserving transform, compressed rank, no shortcut -/
+theorem project_fwd_C (emp wemp : π → Bool) (mk : π) (cfg : Cfg) (hf : cfg.fmt = .C) {k : Int} (hk : 0 < k) (m : Int)
+    (iv : Option (Int × Int)) (os oe : Option Int) {f : Fib Int π} (hs : Sorted f) (hn : noStop emp f = true) :
+    project emp wemp mk cfg k m iv none os oe f = .ok (projectSpec emp k m iv os oe f) := by
+  rw [project_unfold_fwd emp wemp mk cfg hk m iv none os oe hn rfl, iterDefault_C emp mk cfg hf,
+    iterDefaultSpec_C emp mk cfg hf,
+    pipeline_eq_nf emp k m iv os oe (transF_sorted_pos hk m (occ_sorted emp hs)),
+    projectSpec_eq_nf, if_neg (by omega)]
+
+theorem mem_take_le {f : Fib Int π} (hs : Sorted f) {n : Nat} {y : Int × π} (hy : f[n]? = some y) :
+    ∀ z ∈ f.take (n + 1), z.1 ≤ y.1 := by
+  intro z hz
+  rw [List.take_add_one, hy] at hz
+  rcases List.mem_append.1 hz with h | h
+  · exact Int.le_of_lt (sorted_take_lt hs hy z h)
+  · simp at h; subst h; exact Int.le_refl _
+
+/-- order-preserving transform, compressed rank, valid shortcut -/
+theorem project_fwd_C_sp (emp wemp : π → Bool) (mk : π) (cfg : Cfg) (hf : cfg.fmt = .C) {k : Int} (hk : 0 < k) (m : Int)
+    (iv : Option (Int × Int)) (sp : Nat) (os oe : Option Int) {f : Fib Int π} (hs : Sorted f) (hn : noStop emp f = true)
+    (hok : projStartOk iv (some sp) f = true) (hv : projValidStart emp k m iv sp f = true) :
+    project emp wemp mk cfg k m iv (some sp) os oe f = .ok (projectSpec emp k m iv os oe f) := by
+  have hw := withPos_sorted hs
+  rw [project_unfold_fwd emp wemp mk cfg hk m iv (some sp) os oe hn hok]
+  -- the traversed sequence: the non-empty elements from position `sp`
+  have hsrc : iterDefault emp mk cfg (some sp) f = stored (((withPos f).drop sp).filter (fun x => !emp x.2.2)) := by
+    unfold iterDefault iterRange
+    rw [hf]; simp only [Option.getD_some]
+    rw [rangeLoop_none]
+  have hsplit : occ emp f = stored (((withPos f).take sp).filter (fun x => !emp x.2.2)) ++
+      stored (((withPos f).drop sp).filter (fun x => !emp x.2.2)) := by
+    unfold occ stored
+    rw [← List.map_append, ← List.filter_append, List.take_append_drop]
+  have hsort : Sorted (transF k m (stored (((withPos f).drop sp).filter (fun x => !emp x.2.2)))) := by
+    apply transF_sorted_pos hk m
+    exact (sorted_iff_keys (stored_keys _)).2 (sorted_filter (sorted_drop hw sp) _)
+  rw [hsrc, pipeline_eq_nf emp k m iv os oe hsort, projectSpec_eq_nf, if_neg (by omega), hsplit, nf_append]
+  -- nothing of the skipped prefix belongs to the result
+  have hpre : nf emp k m iv os oe (stored (((withPos f).take sp).filter (fun x => !emp x.2.2))) = [] := by
+    unfold projValidStart at hv
+    rw [Bool.and_eq_true] at hv
+    obtain ⟨_, hv⟩ := hv
+    cases iv with
+    | none =>
+      simp only at hv
+      rw [List.all_eq_true] at hv
+      have : ((withPos f).take sp).filter (fun x => !emp x.2.2) = [] := by
+        rw [List.filter_eq_nil_iff]
+        intro x hx
+        have := hv _ (mem_take_withPos_strip hx)
+        simp only at this
+        simp [this]
+      rw [this]; rfl
+    | some p =>
+      obtain ⟨lo, hi⟩ := p
+      simp only at hv
+      cases sp with
+      | zero => simp [nf, stored, transF]
+      | succ n =>
+        simp only [Nat.add_sub_cancel, Bool.or_eq_true] at hv
+        rcases hv with hv | hv
+        · simp at hv
+        · cases hy : f[n]? with
+          | none => rw [hy] at hv; cases hv
+          | some y =>
+            rw [hy] at hv
+            simp only [decide_eq_true_eq] at hv
+            unfold nf
+            rw [List.filter_eq_nil_iff]
+            intro r hr
+            obtain ⟨a, ha, rfl⟩ := List.mem_map.1 hr
+            obtain ⟨x, hx, rfl⟩ := List.mem_map.1 ha
+            have hx' := (List.mem_filter.1 hx).1
+            have hle := mem_take_le hs hy _ (mem_take_withPos_strip hx')
+            simp only at hle
+            have : k * x.1 + m < lo := by
+              have := Int.mul_le_mul_of_nonneg_left hle (Int.le_of_lt hk)
+              omega
+            have hlo : ¬ lo ≤ k * x.1 + m := by omega
+            simp [inIv, hlo]
+  rw [hpre, List.nil_append]
+
+/-- order-preserving transform, uncompressed rank whose content lies within its active range -/
+theorem project_fwd_U (emp wemp : π → Bool) (mk : π) (hmk : emp mk = true) (cfg : Cfg) (hf : cfg.fmt = .U)
+    {k : Int} (hk : 0 < k) (m : Int) (iv : Option (Int × Int)) (sp : Option Nat) (os oe : Option Int)
+    {f : Fib Int π} (hs : Sorted f) (hn : noStop emp f = true) (hok : projStartOk iv sp f = true)
+    (hin : withinActive emp cfg f = true) :
+    project emp wemp mk cfg k m iv sp os oe f = .ok (projectSpec emp k m iv os oe f) := by
+  rw [project_unfold_fwd emp wemp mk cfg hk m iv sp os oe hn hok, iterDefault_U emp mk cfg hf hs sp]
+  have hD : iterDefaultSpec emp mk cfg f = shapeSpec mk f (pyRange (getActive cfg f).1 (getActive cfg f).2 1) := by
+    unfold iterDefaultSpec; rw [hf]
+  have hDs : Sorted (shapeSpec mk f (pyRange (getActive cfg f).1 (getActive cfg f).2 1)) :=
+    shapeSpec_sorted mk f (pyRange_ascending _ _ 1)
+  rw [hD, pipeline_eq_nf emp k m iv os oe (transF_sorted_pos hk m hDs), ← nf_filter_nonempty,
+    shape_nonempty_eq_range emp mk hmk hs, projectSpec_eq_nf, if_neg (by omega)]
+  have hfe : (withPos f).filter (fun x => !emp x.2.2 && decide ((getActive cfg f).1 ≤ x.1) &&
+      decide (x.1 < (getActive cfg f).2)) = (withPos f).filter (fun x => !emp x.2.2) := by
+    apply filter_congr'
+    intro x hx
+    unfold withinActive at hin
+    rw [List.all_eq_true] at hin
+    have := hin _ (mem_withPos_strip hx)
+    simp only [Bool.or_eq_true, Bool.and_eq_true, decide_eq_true_eq] at this
+    rcases this with h | h
+    · simp [h]
+    · simp [h.1, h.2]
+  unfold occ
+  rw [hfe]
+
+end projcases
+end Ft.C07
+
+namespace Ft.C07
+open Ft StrictTotal
+
+/-! ### `prune` -/
+section prune
+variable {π : Type}
+
+theorem iterDefaultSpec_sorted (emp : π → Bool) (mk : π) (cfg : Cfg) {f : Fib Int π} (hs : Sorted f) :
+    Sorted (iterDefaultSpec emp mk cfg f) := by
+  unfold iterDefaultSpec
+  cases cfg.fmt with
+  | C => exact occ_sorted emp hs
+  | U => exact shapeSpec_sorted mk f (pyRange_ascending _ _ 1)
+
+theorem prune_eq_spec (emp : π → Bool) (mk : π) (cfg : Cfg) (pred : Nat → Int → π → Bool) (sp : Option Nat)
+    (os oe : Option Int) {f : Fib Int π} (hs : Sorted f) (hl : startLegal sp f = true)
+    (hD : iterDefault emp mk cfg sp f = iterDefaultSpec emp mk cfg f) :
+    prune emp mk cfg pred sp os oe f = .ok (pruneSpec emp mk cfg pred os oe f) := by
+  unfold prune pruneRaw
+  rw [hl, hD]
+  simp only [Bool.not_true, Bool.false_eq_true, if_false]
+  show Except.ok (lazyIter _ os oe _) = _
+  congr 1
+  have hsub : (((iterDefaultSpec emp mk cfg f).zipIdx.filter (fun x => pred x.2 x.1.1 x.1.2.2)).map (·.1)).Sublist
+      (iterDefaultSpec emp mk cfg f) := by
+    have h1 : ((iterDefaultSpec emp mk cfg f).zipIdx.filter (fun x => pred x.2 x.1.1 x.1.2.2)).Sublist
+        (iterDefaultSpec emp mk cfg f).zipIdx := List.filter_sublist
+    have h2 := h1.map (·.1)
+    rwa [List.zipIdx_map_fst] at h2
+  have hsorted : Sorted (((iterDefaultSpec emp mk cfg f).zipIdx.filter (fun x => pred x.2 x.1.1 x.1.2.2)).map (·.1)) :=
+    List.Pairwise.sublist hsub (iterDefaultSpec_sorted emp mk cfg hs)
+  rw [lazyIter_eq _ os oe hsorted, List.filter_map, List.filter_filter]
+  unfold pruneSpec
+  congr 1
+  apply filter_congr'
+  intro x _
+  simp only [Function.comp, inSlice]
+  cases emp x.1.2.2 <;> cases pred x.2 x.1.1 x.1.2.2 <;> simp
+
+end prune
+
+/-! ### `fromLazy` -/
+section mat
+variable {ν : Type} [DecidableEq ν]
+
+theorem popSpec_nil_left {π β : Type} (mk : π) (rm : Bool → π → Bool) (body : Int → π → β → π) :
+    ∀ (b : Fib Int β), popSpec mk rm body ([] : Fib Int π) b =
+      b.flatMap (fun e => popKeep rm true e.1 (body e.1 mk e.2))
+  | [] => by rw [popSpec]; rfl
+  | (bc, bp) :: rb => by
+    rw [popSpec, popSpec_nil_left mk rm body rb]
+    rfl
+
+theorem rmOf_nonEmpty (dflt : ν) : ∀ (d : Nat) (t : Tree Int ν d), isEmpty dflt d t = false →
+    rmOf dflt d true (nonEmpty dflt d t) = false
+  | 0, v, h => by
+    show decide ((show ν from v) = dflt) = false
+    exact h
+  | d + 1, f, h => by
+    show (true && (List.isEmpty (show List (Int × Tree Int ν d) from nonEmpty dflt (d + 1) f))) = false
+    simp only [Bool.true_and]
+    cases hE : List.isEmpty (show List (Int × Tree Int ν d) from nonEmpty dflt (d + 1) f) with
+    | false => rfl
+    | true =>
+      exfalso
+      have hm : ((show List (Int × Tree Int ν d) from f).filter (fun e => !isEmpty dflt d e.2)).map
+          (fun e => (e.1, nonEmpty dflt d e.2)) = [] := List.isEmpty_iff.1 hE
+      have hf : (show List (Int × Tree Int ν d) from f).filter (fun e => !isEmpty dflt d e.2) = [] :=
+        List.map_eq_nil_iff.1 hm
+      have : isEmpty dflt (d + 1) f = true := by
+        show (show List (Int × Tree Int ν d) from f).all (fun e => isEmpty dflt d e.2) = true
+        rw [List.all_eq_true]
+        intro x hx
+        have := (List.filter_eq_nil_iff.1 hf) x hx
+        simpa using this
+      rw [this] at h; cases h
+
+theorem flatMap_popKeep {π : Type} (rm : Bool → π → Bool) (g : Int × π → π) :
+    ∀ (l : Fib Int π), (∀ e ∈ l, rm true (g e) = false) →
+      l.flatMap (fun e => popKeep rm true e.1 (g e)) = l.map (fun e => (e.1, g e))
+  | [], _ => rfl
+  | e :: r, h => by
+    rw [List.flatMap_cons, List.map_cons, flatMap_popKeep rm g r (fun x hx => h x (List.mem_cons_of_mem _ hx))]
+    unfold popKeep
+    rw [h e (List.mem_cons_self ..)]
+    rfl
+
+/-- materialisation copies the presented elements: `fromLazy` of a lazy fiber that yields `ys`
+    is `nonEmpty` of the eager fiber `ys` -/
+theorem fromLazy_eq_nonEmpty (dflt : ν) (d : Nat) (ys : Fib Int (Tree Int ν d)) (hs : Sorted ys) :
+    fromLazy dflt d ys = nonEmpty dflt (d + 1) (show Tree Int ν (d + 1) from ys) := by
+  unfold fromLazy populate
+  have hb : Sorted (ys.filter (fun x => !isEmpty dflt d x.2)) := List.Pairwise.sublist List.filter_sublist hs
+  have := popLoop_inv (defaultTree dflt d) (rmOf dflt d) (fun _ _ (bp : Tree Int ν d) => nonEmpty dflt d bp)
+    (ys.filter (fun x => !isEmpty dflt d x.2)) [] [] (by simpa using sorted_nil) hb (fun x hx => by cases hx)
+  have h2 : (popLoop (defaultTree dflt d) (rmOf dflt d) (fun _ _ (bp : Tree Int ν d) => nonEmpty dflt d bp)
+      ([] : Fib Int (Tree Int ν d)) 0 (ys.filter (fun x => !isEmpty dflt d x.2))).1 =
+      popSpec (defaultTree dflt d) (rmOf dflt d) (fun _ _ (bp : Tree Int ν d) => nonEmpty dflt d bp) []
+        (ys.filter (fun x => !isEmpty dflt d x.2)) := by
+    simpa using congrArg Prod.fst this
+  show (popLoop _ _ _ ([] : Fib Int (Tree Int ν d)) 0 _).1 = _
+  rw [h2, popSpec_nil_left]
+  show _ = ((show List (Int × Tree Int ν d) from ys).filter (fun e => !isEmpty dflt d e.2)).map
+    (fun e => (e.1, nonEmpty dflt d e.2))
+  apply flatMap_popKeep (rmOf dflt d) (fun e => nonEmpty dflt d e.2)
+  intro e he
+  apply rmOf_nonEmpty
+  have := (List.mem_filter.1 he).2
+  simpa using this
+
+end mat
+end Ft.C07
+
+namespace Ft.C07
+open Ft StrictTotal
+
+section specfacts
+variable {π : Type}
+
+theorem mem_withPos_iff {f : Fib Int π} {c : Int} {i : Nat} {p : π} :
+    (c, (i, p)) ∈ withPos f ↔ f[i]? = some (c, p) := by
+  constructor
+  · exact mem_withPos
+  · intro h
+    unfold withPos
+    apply List.mem_map.2
+    exact ⟨((c, p), i), List.mem_zipIdx_iff_getElem?.2 h, rfl⟩
+
+/-- what the projection consists of: exactly the stored non-empty elements whose transformed
+    coordinate lies in the interval (and in the range the result is iterated with), each as the
+    fiber's own payload under the transformed coordinate -/
+theorem mem_projectSpec (emp : π → Bool) (k m : Int) (iv : Option (Int × Int)) (os oe : Option Int) (f : Fib Int π)
+    (r : Int × (Option Nat × π)) :
+    r ∈ projectSpec emp k m iv os oe f ↔
+      ∃ c i p, f[i]? = some (c, p) ∧ emp p = false ∧ inIv iv (k * c + m) = true ∧
+        geStart os (k * c + m) = true ∧ geEnd oe (k * c + m) = false ∧ r = (k * c + m, (some i, p)) := by
+  have key : r ∈ (transF k m (stored ((withPos f).filter (fun x => !emp x.2.2)))).filter
+      (fun x => inIv iv x.1 && geStart os x.1 && !geEnd oe x.1) ↔
+      ∃ c i p, f[i]? = some (c, p) ∧ emp p = false ∧ inIv iv (k * c + m) = true ∧
+        geStart os (k * c + m) = true ∧ geEnd oe (k * c + m) = false ∧ r = (k * c + m, (some i, p)) := by
+    constructor
+    · intro h
+      obtain ⟨h1, h2⟩ := List.mem_filter.1 h
+      obtain ⟨a, ha, rfl⟩ := List.mem_map.1 h1
+      obtain ⟨x, hx, rfl⟩ := List.mem_map.1 ha
+      obtain ⟨hx1, hx2⟩ := List.mem_filter.1 hx
+      obtain ⟨c, i, p⟩ := x
+      simp only [Bool.and_eq_true, Bool.not_eq_true'] at h2
+      refine ⟨c, i, p, mem_withPos_iff.1 hx1, by simpa using hx2, h2.1.1, h2.1.2, h2.2, rfl⟩
+    · rintro ⟨c, i, p, hi, he, h1, h2, h3, rfl⟩
+      apply List.mem_filter.2
+      refine ⟨?_, by simp [h1, h2, h3]⟩
+      apply List.mem_map.2
+      refine ⟨(c, (some i, p)), ?_, rfl⟩
+      apply List.mem_map.2
+      refine ⟨(c, (i, p)), ?_, rfl⟩
+      apply List.mem_filter.2
+      exact ⟨mem_withPos_iff.2 hi, by simp [he]⟩
+  unfold projectSpec
+  simp only
+  split
+  · rw [List.mem_reverse]; exact key
+  · exact key
+
+theorem projectSpec_sorted (emp : π → Bool) {k : Int} (hk : k ≠ 0) (m : Int) (iv : Option (Int × Int))
+    (os oe : Option Int) {f : Fib Int π} (hs : Sorted f) : Sorted (projectSpec emp k m iv os oe f) := by
+  rw [projectSpec_eq_nf]
+  by_cases h : k < 0
+  · rw [if_pos h, ← nf_reverse]
+    exact sorted_filter (transF_sorted_neg h m (occ_sorted emp hs)) _
+  · rw [if_neg h]
+    have hk' : 0 < k := by omega
+    exact sorted_filter (transF_sorted_pos hk' m (occ_sorted emp hs)) _
+
+end specfacts
+end Ft.C07
